@@ -1,39 +1,35 @@
 #!/usr/bin/env python3
-"""Imports the confirmed seeded changes from a seed output tree into /verif/seeded/<prop>-<X>/.
-patch.diff applies to the current /repo HEAD (rebased copy from selftest/mutants when the original no longer applies;
-the original is then kept as patch.orig.diff)."""
+"""usage: import_seeds.py <root> <round> <letterA> <letterB> — imports the confirmed seeded changes (<root>/Cxx-out/mutA|mutB)
+and into selftest/mutants/Cxx/seeded4_<letter>.patch."""
 import json, os, shutil, subprocess, sys, glob
-SRC = sys.argv[1] if len(sys.argv) > 1 else "/tmp/seed"
-R = "/var/tmp/mk/r"
-rebased = {
-    "C18-mutB": "selftest/mutants/C18/seeded_annotations_compared_backwards.patch",
-    "C20-mutA": "selftest/mutants/C20/seeded_should_update_partial_compare.patch",
-}
-subprocess.check_call(["git", "-C", R, "checkout", "-q", "--", "."])
-for d in sorted(glob.glob(SRC + "/C*-out/mut*")):
+SRC, ROUND, LA, LB = sys.argv[1], int(sys.argv[2]), sys.argv[3], sys.argv[4]
+R = "/repo"
+letter = {"mutA": LA, "mutB": LB}
+for d in sorted(glob.glob(SRC + "/C[0-9][0-9]-out/*mut*")):
     prop = os.path.basename(os.path.dirname(d)).split("-")[0]
     mut = os.path.basename(d)
-    sid = f"{prop}-{mut[-1]}"
+    if mut not in letter or not os.path.isdir(d):
+        continue
+    sid = f"{prop}-{letter[mut]}"
+    if not os.path.exists(d + "/confirm.json"):
+        print("skip (no confirm.json yet)", d); continue
     conf = json.load(open(d + "/confirm.json"))
     if conf.get("status") != "CONFIRMED":
         print("skip (not confirmed)", d); continue
+    if subprocess.call(["git", "-C", R, "apply", "--check", d + "/patch.diff"], stderr=subprocess.DEVNULL) != 0:
+        print("DOES NOT APPLY", d); continue
     out = f"/verif/seeded/{sid}"
     os.makedirs(out, exist_ok=True)
-    ok = subprocess.call(["git", "-C", R, "apply", "--check", d + "/patch.diff"], stderr=subprocess.DEVNULL) == 0
-    if ok:
-        shutil.copy(d + "/patch.diff", out + "/patch.diff")
-    else:
-        key = f"{prop}-{mut}"
-        if key not in rebased:
-            print("NO REBASE FOR", key); continue
-        shutil.copy("/verif/" + rebased[key], out + "/patch.diff")
-        shutil.copy(d + "/patch.diff", out + "/patch.orig.diff")
-    for f in ("demo_test.go", "DEMO.md"):
-        if os.path.exists(d + "/" + f):
-            shutil.copy(d + "/" + f, out + "/" + ("demo_test.go.txt" if f.endswith(".go") else f))
+    shutil.copy(d + "/patch.diff", out + "/patch.diff")
+    for f in sorted(os.listdir(d)):
+        if f.endswith(".go"):
+            shutil.copy(d + "/" + f, out + "/" + f + ".txt")
+        elif f == "DEMO.md":
+            shutil.copy(d + "/" + f, out + "/" + f)
     meta = json.load(open(d + "/meta.json"))
     meta["id"] = sid
-    meta["patch_applies_to"] = "current /repo HEAD" if ok else "current /repo HEAD (rebased; original against b11bfe7 in patch.orig.diff)"
+    meta["round"] = ROUND
+    meta["patch_applies_to"] = "current /repo HEAD"
     meta["confirmation"] = {
         "by": "tools/confirm_seed.py in a scratch worktree",
         "demo_cmd": conf.get("demo_cmd"),
@@ -43,7 +39,10 @@ for d in sorted(glob.glob(SRC + "/C*-out/mut*")):
         "demo_with_patch_tail": (conf.get("with_patch", {}).get("tail") or "")[-600:],
         "existing_tests_run": conf.get("existing_tests", {}).get("pkgs"),
         "existing_tests_failures": conf.get("existing_tests", {}).get("failures"),
+        "existing_tests_environmental_only": conf.get("existing_tests", {}).get("environmental_only"),
         "status": conf.get("status"),
     }
     json.dump(meta, open(out + "/meta.json", "w"), indent=1, ensure_ascii=False)
-    print("imported", sid, "" if ok else "(rebased)")
+    print("imported", sid)
+    os.makedirs(f"/verif/selftest/mutants/{prop}", exist_ok=True)
+    shutil.copy(d + "/patch.diff", f"/verif/selftest/mutants/{prop}/seeded{ROUND}_{sid}.patch")
